@@ -100,6 +100,12 @@ func PickHosts(ch *core.Chooser) []string {
 		idx[i], idx[j] = idx[j], idx[i]
 		hs = append(hs, from[idx[i]])
 	}
+	// a name no earlier run of this process has used (the draw is part of the
+	// choice log): whatever the library memoises per name or per pattern
+	// outside its engines is cold for it
+	if ch.Intn("hosts.fresh", 2) == 1 {
+		hs = append(hs, fmt.Sprintf("n%06x.example.org", ch.Intn("hosts.salt", 1<<24)))
+	}
 	// hash-colliding names come in pairs: if one is in, so is its partner
 	pairs := [][2]string{{"c89959.example.org", "c2012306.example.org"}, {"o0-4vx.com", "o2o64x.com"}}
 	for _, pr := range pairs {
